@@ -66,6 +66,9 @@ def is_null(v):
         return True
     if isinstance(v, (float, np.floating)) and math.isnan(v):
         return True
+    if isinstance(v, (complex, np.complexfloating)) and (
+            math.isnan(v.real) or math.isnan(v.imag)):
+        return True
     if isinstance(v, (np.datetime64, np.timedelta64)) and np.isnat(v):
         return True
     if isinstance(v, D) and v.is_nan():
@@ -493,7 +496,7 @@ def build_series(vals, dtype, labels, name):
 
 def gen_pandas_container(rng, kind):
     """Returns (container, description dict)."""
-    flavour = rng.choice(NEAR.get(kind, NEAR[None])) if rng.random() < 0.6 \
+    flavour = rng.choice(NEAR.get(kind, NEAR[None])) if rng.random() < 0.75 \
         else rng.choice(sorted(FLAVOURS))
     n = rng.choice([0, 1, 1, 2, 3, 3, 4, 5, 6])
     vals, dtype = gen_values(rng, flavour, n)
@@ -601,7 +604,7 @@ def gen_polars_column(rng, flavour, n):
 
 def gen_polars_container(rng, kind):
     import polars as pl
-    flavour = rng.choice(PL_NEAR.get(kind, PL_NEAR[None])) if rng.random() < 0.6 \
+    flavour = rng.choice(PL_NEAR.get(kind, PL_NEAR[None])) if rng.random() < 0.75 \
         else rng.choice(PL_FLAVOURS)
     n = rng.choice([0, 1, 1, 2, 3, 3, 4, 5])
     vals, dt = gen_polars_column(rng, flavour, n)
